@@ -97,6 +97,17 @@ def energy(case, ctx):
     if If.shape != N or abs(float(If.sum()) - p_in) > rel * p_in + 1e-300:
         raise Violation("C05.fft.total", f"FFT image {If.shape} power {float(If.sum()):.12e} != input power "
                                          f"{p_in:.12e} (N={N}, in={shape}, os={os_})")
+    # the same FFT with a scratch buffer that was used before for a LARGER period (broadband use)
+    N2 = (N[0] + 2 * os_, N[1] + 3 * os_)
+    du2 = (wl * z * os_ / (case["dx"][0] * N2[0]), wl * z * os_ / (case["dx"][1] * N2[1]))
+    with lentil_call("C05.fft.scratch", "propagate_fft with a reused scratch buffer"):
+        scratch = np.zeros(N2, dtype=complex)
+        Ibig = lentil.propagate_fft(w, pixelscale=du2, oversample=os_, scratch=scratch).intensity
+        Iagain = lentil.propagate_fft(w, pixelscale=tuple(case["du"]), oversample=os_, scratch=scratch).intensity
+    for nm_, arr, shp in (("larger period", Ibig, N2), ("original period after reuse", Iagain, N)):
+        if arr.shape != shp or abs(float(arr.sum()) - p_in) > rel * p_in + 1e-300:
+            raise Violation("C05.fft.scratch_total", f"FFT image with a reused scratch buffer ({nm_}, {arr.shape}) has power "
+                                                     f"{float(arr.sum()):.12e}, input power {p_in:.12e}")
     # nested windows
     prev = 0.0
     prev_w = None
